@@ -106,7 +106,9 @@ def run_group(arg):
                     sim = make_sim(sim0, base, base["q"], base["inten"], reverse_modes=bool((idx + ti) % 2))
                     if edge and pad != (0, 0):
                         continue
-                    p = tp.build(sim, obj_type=ot, obj_padding_px=pad, check=not edge)
+                    # (a third of the groups: the same dataset / reconstruction objects were preprocessed once before
+                    # with other options - preprocessing is a function of its arguments, not of the object's past)
+                    p = tp.build(sim, obj_type=ot, obj_padding_px=pad, check=not edge, warm_preprocess=(idx % 3 == 1 and not edge))
                     at_truth = {}
                     for lt in LOSSES:
                         for bsz in (None, 1, 2, n - 1 if n > 2 else 1):
